@@ -4,7 +4,7 @@
    a sample of every run (the in-kernel sample), so the extraction itself is checked. *)
 From Coq Require Import List Ascii String Bool Arith NArith ZArith.
 Require Import Show.
-Require V1 V5 V6 V3 V11 A1 D3 M6 M6b GS R2 AR AR2 AR3 CL TS3 CX SchemaDefs Schema_gen.
+Require V1 V5 V6 V3 V11 A1 D3 M6 M6b GS R2 AR AR2 AR3 CL TS3 CX SchemaDefs Schema_gen H12 H13.
 Import ListNotations.
 Open Scope string_scope.
 Open Scope list_scope.
@@ -368,6 +368,31 @@ Definition run_codec (op : string) (a : list str) : option str :=
           end)
   else None.
 
+(* ---- hashio and checksum verification: C12 (the digest oracle H comes in as an argument) ---- *)
+Definition names_of (x : str) : list str := if D3.seq x (lit "-") then [] else GS.split ","%char x.
+Definition show_vres (r : H12.vres) : str :=
+  match r with H12.Accept => lit "accept" | H12.Reject => lit "reject" | H12.VError => lit "error" end.
+Definition run_hash (op : string) (a : list str) : option str :=
+  let g n := nth_arg n a in
+  if (op =? "hwrite") || (op =? "hread") then
+    (* the bytes every hasher has seen are printed; the driver turns them into digests with an independent
+       implementation of the algorithms *)
+    Some (match H12.run_writers (names_of (g 0)) (tl a) with
+          | None => lit "err"
+          | Some st => lit "ok " ++ show_data (H12.w_target st) ++ sp1 ++
+              show_list (fun h => unwords [lit "("; hx (H12.h_name h); show_Z (H12.h_size h); hx (H12.h_buf h); lit ")"]) (H12.w_hashers st)
+          end)
+  else if op =? "hverify" then
+    let fh := {| H12.f_alg := g 0; H12.f_hash := g 1; H12.f_size := 0; H12.f_name := [] |} in
+    Some (show_vres (H12.verify (fun _ _ => g 2) fh (skipn 3 a)))
+  else if op =? "hparsed" then
+    Some (match H13.unmarshal_hash CX.parse_int (g 0) (g 1) with
+          | None => lit "parse-error"
+          | Some fh => unwords [lit "("; hx (H12.f_alg fh); hx (H12.f_hash fh); show_Z (H12.f_size fh); hx (H12.f_name fh); lit ")";
+                                show_vres (H12.verify (fun _ _ => g 2) fh (skipn 3 a))]
+          end)
+  else None.
+
 Definition run (op : string) (hexargs : list str) : str :=
   let a := map unhex hexargs in
   match run_version op a with Some r => r | None =>
@@ -377,4 +402,5 @@ Definition run (op : string) (hexargs : list str) : str :=
   match run_changelog op a with Some r => r | None =>
   match run_order op a with Some r => r | None =>
   match run_codec op a with Some r => r | None =>
-  lit "unknown-op" end end end end end end end.
+  match run_hash op a with Some r => r | None =>
+  lit "unknown-op" end end end end end end end end.
